@@ -4,6 +4,7 @@ from pyvc.sorts import *  # noqa
 from pyvc.contract import contract, Loop
 from pyvc.expr import ExprMixin
 from contracts.common import *  # noqa
+from contracts.common import _defaults_exist
 
 F = 'fiddle/_src/signatures.py'
 
@@ -21,7 +22,7 @@ def _pi_req(c):
   h, s = c.old, ref(c['self'])
   return z3.And(isref(h, c['self'], 'SignatureInfo'),
                 isref(h, h.fld(s, 'signature'), 'Signature'),
-                WF(sig_of(h, s)),
+                WF(sig_of(h, s)), _defaults_exist(h, sig_of(h, s)),
                 h.fld(s, 'has_var_keyword') == VNone)
 
 
